@@ -121,20 +121,48 @@ where
 {
     set_run_key(run_key);
     clear_last_panic();
-    let handle = std::thread::Builder::new()
-        .name("sim-run".to_string())
-        .stack_size(256 << 20)
-        .spawn(move || {
-            let pool = rayon::ThreadPoolBuilder::new()
-                .num_threads(workers.max(1))
-                .stack_size(64 << 20)
-                .build()
-                .expect("rayon pool");
+    // Thread creation can fail transiently (EAGAIN) on a loaded machine. That is the harness's
+    // problem, never the system under test's: retry, and if it keeps failing end the worker
+    // process with a harness error instead of reporting a panic of the run.
+    let mut f_opt = Some(f);
+    let mut attempt = 0;
+    let handle = loop {
+        let f = f_opt.take().unwrap();
+        let shared = std::sync::Arc::new(std::sync::Mutex::new(Some(f)));
+        let s2 = shared.clone();
+        let r = std::thread::Builder::new().name("sim-run".to_string()).stack_size(256 << 20).spawn(move || {
+            let f = s2.lock().unwrap().take().unwrap();
+            let mut tries = 0;
+            let pool = loop {
+                match rayon::ThreadPoolBuilder::new().num_threads(workers.max(1)).stack_size(64 << 20).build() {
+                    Ok(p) => break p,
+                    Err(e) => {
+                        tries += 1;
+                        if tries > 50 {
+                            eprintln!("HARNESS: cannot build rayon pool: {}", e);
+                            std::process::exit(3);
+                        }
+                        std::thread::sleep(std::time::Duration::from_millis(100));
+                    }
+                }
+            };
             let r = catch_unwind(AssertUnwindSafe(|| pool.install(f)));
             drop(pool);
             r
-        })
-        .expect("spawn run thread");
+        });
+        match r {
+            Ok(h) => break h,
+            Err(e) => {
+                attempt += 1;
+                if attempt > 50 {
+                    eprintln!("HARNESS: cannot spawn run thread: {}", e);
+                    std::process::exit(3);
+                }
+                std::thread::sleep(std::time::Duration::from_millis(100));
+                f_opt = shared.lock().unwrap().take();
+            }
+        }
+    };
     match handle.join() {
         Ok(Ok(v)) => {
             clear_last_panic();
@@ -187,4 +215,25 @@ pub fn proc_cpu_seconds(pid: u32) -> Option<f64> {
     let stt: f64 = fields.get(12)?.parse().ok()?;
     let hz = unsafe { libc::sysconf(libc::_SC_CLK_TCK) } as f64;
     Some((ut + stt) / hz)
+}
+
+/// spawn a thread, retrying transient failures; gives up with a harness exit (never a panic that
+/// could be mistaken for a failure of the system under test)
+pub fn spawn_retry<F: FnOnce() + Send + 'static>(name: &str, stack: usize, f: F) -> std::thread::JoinHandle<()> {
+    let shared = std::sync::Arc::new(std::sync::Mutex::new(Some(f)));
+    for _ in 0..60 {
+        let s2 = shared.clone();
+        let r = std::thread::Builder::new().name(name.to_string()).stack_size(stack).spawn(move || {
+            let f = s2.lock().unwrap().take();
+            if let Some(f) = f {
+                f()
+            }
+        });
+        match r {
+            Ok(h) => return h,
+            Err(_) => std::thread::sleep(std::time::Duration::from_millis(100)),
+        }
+    }
+    eprintln!("HARNESS: cannot spawn thread {}", name);
+    std::process::exit(3);
 }
